@@ -629,6 +629,39 @@ func ruleFunctionIdentity(w *World, r *Report, rule string) {
 			n++
 			con := fmt.Sprintf("%s#Pointer/%d", fi.Name(), n)
 			good, how := false, ""
+			// v.Kind() == reflect.Pointer && … v.Pointer(): the address of a value, not the code pointer of a function
+			if sel, isSel := unparen(c.Fun).(*ast.SelectorExpr); isSel {
+				if ro := objOf(info, sel.X); ro != nil {
+					isData := false
+					ast.Inspect(fi.Decl.Body, func(y ast.Node) bool {
+						be, ok := y.(*ast.BinaryExpr)
+						if !ok || be.Op != token.EQL {
+							return true
+						}
+						for _, pair := range [][2]ast.Expr{{be.X, be.Y}, {be.Y, be.X}} {
+							kc, isC := unparen(pair[0]).(*ast.CallExpr)
+							if !isC {
+								continue
+							}
+							ks, isS := unparen(kc.Fun).(*ast.SelectorExpr)
+							if !isS || ks.Sel.Name != "Kind" || objOf(info, ks.X) != ro {
+								continue
+							}
+							if ko := objOf(info, pair[1]); ko != nil && (ko.Name() == "Pointer" || ko.Name() == "Ptr") {
+								isData = true
+							}
+							if s2, ok := unparen(pair[1]).(*ast.SelectorExpr); ok && (s2.Sel.Name == "Pointer" || s2.Sel.Name == "Ptr") {
+								isData = true
+							}
+						}
+						return true
+					})
+					if isData {
+						r.OK(rule, con, c.Pos(), false, "the value is tested to be of pointer kind: Pointer() is the address of a value, not a code pointer")
+						return true
+					}
+				}
+			}
 			// runtime.FuncForPC(v.Pointer()): the pointer names the function for a message, it identifies nothing
 			if len(stack) >= 2 {
 				if pc, isC := stack[len(stack)-2].(*ast.CallExpr); isC && isFunc(callee(info, pc), "runtime", "", "FuncForPC") {
